@@ -904,7 +904,8 @@ def numeric_deviation(mc, op, k=0, trials=40, seed=0):
     rng = np.random.default_rng(seed)
     worst, where = 0.0, None
     for _ in range(trials):
-        z1 = complex(rng.uniform(0.2, 1.5), rng.normal() * 0.3)
+        # log1p is defined for Re z1 > -1: base points on both sides of 0
+        z1 = complex(rng.uniform(-0.9, 1.5) if op == 'log1p' else rng.uniform(0.2, 1.5), rng.normal() * (0.03 if op == 'log1p' else 0.3))
         z2 = complex(rng.normal() * 0.3, rng.normal() * 0.3)
         y1 = complex(rng.normal(), rng.normal())
         y2 = complex(rng.normal(), rng.normal())
